@@ -683,6 +683,25 @@ func propC03(r *Run) {
 				}
 			}
 		}
+		// a between-site strictly inside a forward window overlaps it and survives, re-based (seeded
+		// change W20-2: LocationOverlap answering false for every empty span)
+		if !wrap {
+			for _, f := range s.Features() {
+				if bt, ok := f.Loc.(gts.Between); ok && aa < int(bt) && int(bt) < bb && f.Key != "source" {
+					r.count("seq.slice/site-inside-window")
+					found := false
+					for _, g := range res.Features() {
+						if g.Key == f.Key && encLoc(g.Loc) == encLoc(gts.Between(int(bt)-aa)) {
+							found = true
+						}
+					}
+					if !found {
+						r.fail(Failure{Oracle: "slice: a between-site strictly inside the window survives at its re-based position", Op: line,
+							Got: encSeq(res), Want: featKey(f) + " at " + encLoc(gts.Between(int(bt)-aa))})
+					}
+				}
+			}
+		}
 		if !wrap {
 			wantR := map[string]int{}
 			for _, f := range s.Features() {
